@@ -247,6 +247,9 @@ func (c *Ctx) Violate(sig, what string, cas interface{}) {
 		return
 	}
 	c.sigCount[sig]++
+	if len(what) > 4000 {
+		what = what[:2500] + fmt.Sprintf(" ...[%d bytes omitted; the case file has the input]... ", len(what)-3000) + what[len(what)-500:]
+	}
 	b, _ := json.Marshal(cas)
 	c.Violations = append(c.Violations, Violation{Property: c.ID, Signature: sig, What: what, Case: b})
 }
